@@ -623,3 +623,95 @@ func Expected(d *spec.Design, v any, a *spec.Attr) any {
 	}
 	return v
 }
+
+
+// ---------------------------------------------------------------------------
+// views (reference semantics of result-type projection)
+// ---------------------------------------------------------------------------
+
+// ViewOf finds a view of a result type ("" means "default").
+func ViewOf(u *spec.UserType, name string) *spec.View {
+	if name == "" {
+		name = "default"
+	}
+	for _, v := range u.Views {
+		if v.Name == name {
+			return v
+		}
+	}
+	return nil
+}
+
+// Project returns the value restricted to the attributes of view, nested
+// result types projected with the view their attribute names (or "default").
+func Project(d *spec.Design, v any, u *spec.UserType, view string) any {
+	obj, ok := v.(map[string]any)
+	vw := ViewOf(u, view)
+	if !ok || vw == nil {
+		return v
+	}
+	out := map[string]any{}
+	for _, fn := range vw.Fields {
+		f := u.Attr.Type.Field(fn)
+		fv, present := obj[fn]
+		if f == nil || !present || fv == nil {
+			continue
+		}
+		if f.Type.Kind == spec.User {
+			if nu := d.UserType(f.Type.Name); nu != nil && nu.IsResult {
+				out[fn] = Project(d, fv, nu, f.View)
+				continue
+			}
+		}
+		out[fn] = fv
+	}
+	return out
+}
+
+// OutsideView lists attributes of value got (as read from the client's Go
+// value) that are set although the view does not contain them. A zero value in
+// a non-pointer field is what "unset" looks like there.
+func OutsideView(d *spec.Design, got any, u *spec.UserType, view string, path string) []string {
+	obj, ok := got.(map[string]any)
+	vw := ViewOf(u, view)
+	if !ok || vw == nil {
+		return nil
+	}
+	in := map[string]bool{}
+	for _, f := range vw.Fields {
+		in[f] = true
+	}
+	var out []string
+	for _, f := range u.Attr.Type.Fields {
+		gv := obj[f.Name]
+		if in[f.Name] {
+			if f.Type.Kind == spec.User && gv != nil {
+				if nu := d.UserType(f.Type.Name); nu != nil && nu.IsResult {
+					out = append(out, OutsideView(d, gv, nu, f.View, path+"."+f.Name)...)
+				}
+			}
+			continue
+		}
+		if gv == nil || isZero(gv) {
+			continue
+		}
+		out = append(out, fmt.Sprintf("%s.%s=%s", path, f.Name, Show(gv)))
+	}
+	return out
+}
+
+func isZero(v any) bool {
+	switch x := v.(type) {
+	case bool:
+		return !x
+	case int64:
+		return x == 0
+	case uint64:
+		return x == 0
+	case float64:
+		return x == 0
+	case string:
+		return x == ""
+	}
+	return isEmptyColl(v)
+}
